@@ -99,6 +99,29 @@ def run(ctx):
         res.add(Finding('C10', 'C10.a', 'R-SIBLING', gp.file, gp.qualname, gp.node.lineno, '; '.join(why),
                         'an S3 listing prefix is not the category immediately followed by the id delimiter: a category that is a prefix '
                         'of another would list both'))
+    # file cassette: the listing looks at file names (a prefix test with the category before the recording is opened), so the name must start
+    # with the category as given: the path function may rewrite the id delimiter only (a category never contains it)
+    from ..loader import expand_locals as _xl10
+    for pm in [m for m in fil.methods.values() if len(m.params) == 2 and not m.is_property and
+               any(isinstance(r, ast.Return) and r.value is not None and any(self_attr(x) == 'directory' for x in ast.walk(r.value)) for r in walk_own(m.node))]:
+        idp = pm.params[1]
+        rewrites = []
+        for r in [r for r in walk_own(pm.node) if isinstance(r, ast.Return) and r.value is not None]:
+            e_ = _xl10(pm.node, r.value)
+            for n in ast.walk(e_):
+                if isinstance(n, ast.Call) and any(isinstance(x, ast.Name) and x.id == idp for x in ast.walk(n)) and \
+                        norm(n.func) not in ('os.path.join', 'str', 'six.text_type', 'os.path.normpath') and not (isinstance(n.func, ast.Attribute) and n.func.attr == 'format'):
+                    only_delim = isinstance(n.func, ast.Attribute) and n.func.attr == 'replace' and isinstance(n.func.value, ast.Name) and n.func.value.id == idp and \
+                        len(n.args) == 2 and isinstance(n.args[0], ast.Constant) and n.args[0].value == '/' and isinstance(n.args[1], ast.Constant) and \
+                        isinstance(n.args[1].value, str) and '/' not in n.args[1].value
+                    if not only_delim:
+                        rewrites.append(n)
+        ca.instance('file cassette: the file name is the id with only the delimiter rewritten (listing tests file names against the category)', pm.qualname, not rewrites)
+        ca.evaluations += 1
+        for n in rewrites[:1]:
+            res.add(Finding('C10', 'C10.a', 'R-SIBLING', pm.file, pm.qualname, getattr(n, 'lineno', pm.node.lineno), norm(n)[:90],
+                            'the file name is derived from the id by `%s`, which changes more than the id delimiter: the listing selects files whose name '
+                            'starts with the category as given, so recordings of a category containing a rewritten character are saved but never listed' % norm(n)[:70]))
     # ---------------- C10.b
     for c in (mem, fil, s3):
         users = []
